@@ -812,7 +812,7 @@ func sameAddr(a, b ssa.Value) bool {
 func ruleGlobW(p *Prog, r *Report) {
 	eff := p.Effects()
 	dec, err1 := p.DecEntries()
-	hash, err2 := p.HashEntries()
+	hash, err2 := p.StateEntries()
 	if err1 != nil || err2 != nil {
 		r.Fatal("entry points unresolved")
 		return
